@@ -5,6 +5,9 @@ V = os.path.dirname(os.path.dirname(os.path.abspath(__file__)))
 props = [json.loads(l) for l in open(os.path.join(V, "properties.jsonl"))]
 
 CLAIMED = {
+ "C05": dict(cat="model_checking", tech="trace validation of rules compiled in company: every rule's observation judged by TLC against its own reference semantics (compositional oracle) + direct alone-vs-company comparison + source/include cuts",
+   text="Rule sets of 4-14 cases from the text/hex/regex/condition generators plus noise rules built to share atoms, prefixes, suffixes and inner atoms with a backtrack, spread over 1-3 namespaces cut into several add-source calls, with a false global rule and same-prefix rules in a foreign namespace, shuffled; every rule x buffer is (i) compared with the rule compiled alone and (ii) judged by TLC against TextMatch/ReMatch/Cond. The same namespace text cut into all <=3 consecutive sources and nested includes must give the same rule table and results.",
+   ref="5 C05, 4.6", note="the Aho-Corasick automaton model (AhoCorasick.tla, hooks H3/H4) is not built yet: independence is decided through the compositional oracle and the differential run."),
  "C08": dict(cat="model_checking", tech="TLC model checking of Arena.tla (save/load, relocation registration) + cross-process image comparison + trace validation of saved-destroyed-loaded rules against the Cond/TextMatch/ReMatch/Scan specs",
    text="Arena.tla models cells, pointers with address epochs, the relocation list and the saved image; TLC checks ImageIndependentOfEpochs and CompleteLoads over all write/registration histories (one unregistered pointer violates them). On the implementation: a corpus covering every construct is saved in three processes with different heap layouts and must be byte-identical; random conditions, strings of every kind and scanner-protocol rule sets are compiled, saved (file and stream), the compiler and the ORIGINAL rules destroyed, loaded (file and item-wise stream) and scanned under ASan, every observation judged by TLC against the same specifications as C01-C04/C11.",
    ref="5 C08, 4.9", note="raw pointers in the image are detected through differing layouts/allocators (ASLR, glibc vs ASan), not by a relocation audit (hook H2 not built). D8 is a known finding."),
